@@ -211,6 +211,40 @@ def h_remove_leg(V, sym, nd, lt, trans, axis):
     V.check('blocks-reduced', same_block_set(vr['blocks'], want, with_slices=True))
 
 
+def h_remove_meta_leg(V, sym, lt, trans, mfs, axis):
+    """ remove_leg on a META-FUSED leg made of several unit native legs: all of them go, all their charges leave n """
+    from yastn import YastnError
+    nsym = len(MOD[sym])
+    nd_n = sum(m[0] for m in mfs)
+    a = mk(V, sym, nd_n, lt, trans, mfs=mfs)
+    va = view(a, sym)
+    starts = [0]
+    for m in mfs:
+        starts.append(starts[-1] + m[0])
+    pos = list(range(starts[axis], starts[axis + 1]))          # logical native positions of the meta leg
+    for b in va['blocks']:
+        for p in pos:
+            V.assume(b[1][p] == 1)
+    if lt > 1:
+        for p in pos:
+            V.assume(deep_eq(leg_charge(va['blocks'][0][0], p, nsym), leg_charge(va['blocks'][1][0], p, nsym)))
+    out = V.outcome(a.remove_leg, axis=axis)
+    V.check('unit-meta-leg-accepted', out.exc is None)
+    if out.exc is not None:
+        return
+    r = out.value
+    check_wf(V, r, sym)
+    vr = view(r, sym)
+    keep = [p for p in range(nd_n) if p not in pos]
+    V.check('all-native-legs-of-the-meta-leg-removed', deep_eq(vr['s'], tuple(va['s'][p] for p in keep)) and r.mfs == tuple(m for i, m in enumerate(mfs) if i != axis))
+    if lt > 0:
+        ts = [leg_charge(va['blocks'][0][0], p, nsym) for p in pos]
+        V.check('charge-is-n-minus-all-signed-leg-charges',
+                deep_eq(FUSE_S([r.struct.n] + ts, (1,) + tuple(va['s'][p] for p in pos), 1, sym), tuple(a.struct.n)))
+    want = [(tuple(x for p in keep for x in leg_charge(b[0], p, nsym)), tuple(b[1][p] for p in keep), b[2], b[3]) for b in va['blocks']]
+    V.check('blocks-reduced', same_block_set(vr['blocks'], want, with_slices=True))
+
+
 def h_add_remove_roundtrip(V, sym, nd, lt, trans, axis):
     a = mk(V, sym, nd, lt, trans)
     va = view(a, sym)
@@ -388,6 +422,13 @@ def units(tier):
             fl = [None, 0, (nd - 1,)] + ([(0, nd - 1)] if nd > 1 else [])
             for ax in fl:
                 U.append(('h_flip_charges', f"{lab},axes={ax}", dict(sym=sym, nd=nd, lt=lt, trans=p, axes=ax)))
+    for sym in syms:
+        for lt in range(0, ltmax + 1):
+            if len(MOD[sym]) == 0 and lt > 1:
+                continue
+            for (mfs, axis, trs) in ((((2, 1, 1), (1,)), 0, [None, (2, 0, 1)]), (((1,), (2, 1, 1)), 1, [None, (1, 0, 2)]), (((3, 1, 1, 1),), 0, [None])):
+                for tr in trs:
+                    U.append(('h_remove_meta_leg', f"{sym},lt={lt},mfs={mfs},axis={axis},trans={tr}", dict(sym=sym, lt=lt, trans=tr, mfs=mfs, axis=axis)))
     for sym in syms:
         for lt in range(0, ltmax + 1):
             if len(MOD[sym]) == 0 and lt > 1:
